@@ -18,12 +18,14 @@ def run_book(case):
     seg: list = []
     state = {"pending": list(case["reads"]), "last": 0}
 
+    unit = case.get("unit")          # seconds per tick (non-dyadic on purpose); default: 1/64 s, exact in floats
+
     def clock():
         if state["pending"]:
             state["last"] = state["pending"].pop(0)
         v = state["last"]
         seg.append(["r", v])
-        return v / TICK
+        return v * unit if unit else v / TICK
 
     class StubInteraction:
         def setup(self): pass
@@ -43,7 +45,9 @@ def run_book(case):
     ptime.fixed_time = clock
     h = H()
     try:
-        th = InferenceThread(StubInteraction(), log_tick_time_statistics_interval=case["ivl"] / TICK)
+        # with a non-dyadic unit the interval lies half a tick beyond ivl ticks, so that no comparison is decided by rounding
+        ivl_s = (case["ivl"] + 0.5) * unit if unit else case["ivl"] / TICK
+        th = InferenceThread(StubInteraction(), log_tick_time_statistics_interval=ivl_s)
         th._logger.addHandler(h)
         th._logger.setLevel(logging.INFO)
         th._logger.disabled = False
